@@ -111,6 +111,70 @@ Theorem c18_units_context_irrelevant : forall (fac : eunit -> Q) (u0 us ul v : e
 Proof. reflexivity. Qed.
 Print Assumptions c18_units_context_irrelevant.
 
+(* ---- savedir / loaddir sessions (Model.C18 part D: directory -> ordered table tag -> object) ----
+   [TagPinned]: automatic tag = last key + 1 (the code as found); [TagRepaired]: 1 + largest integer key.
+   The first three theorems hold for both variants. *)
+
+(* one successful savedir, in any state of any number of directories: the object is found under the
+   reported tag in that directory, every other tag there and every other directory are untouched *)
+Theorem c18_savedir_stores_and_keeps : forall (O : Type) (v : tvariant) (s s' : dirs O) d tag x k,
+  savedir O v s d tag x = (s', DSaved k) ->
+  s' d = Some (tset O (tab_of O s d) k x) /\
+  tget O (tab_of O s' d) k = Some x /\
+  (forall k', tag_eqb k' k = false -> tget O (tab_of O s' d) k' = tget O (tab_of O s d) k') /\
+  (forall d', d' <> d -> s' d' = s d') /\
+  (tag = Some k \/ (tag = None /\ auto_tag O v (tab_of O s d) = Some k)).
+Proof. intros O v. exact (savedir_spec O v). Qed.
+Print Assumptions c18_savedir_stores_and_keeps.
+
+(* a new directory's table lists the saved object only; the automatic tag starts at 1 *)
+Theorem c18_savedir_fresh_directory : forall (O : Type) (v : tvariant) (s : dirs O) d tag x, s d = None ->
+  exists k, savedir O v s d tag x = (fun d' => if Nat.eqb d' d then Some [(k, x)] else s d', DSaved k) /\
+            (tag = None -> k = TInt 1) /\ (forall k0, tag = Some k0 -> k = k0).
+Proof. intros O v. exact (savedir_fresh O v). Qed.
+Print Assumptions c18_savedir_fresh_directory.
+
+(* for EVERY session (history of savedir / loaddir calls on any directories): what a directory holds -
+   and so what loaddir returns - is what the calls into that very directory alone would have produced *)
+Theorem c18_directories_independent : forall (O : Type) (v : tvariant) (h : list (dop O)) (s1 s2 : dirs O) d,
+  s1 d = s2 d ->
+  fst (drun O v s1 h) d = fst (drun O v s2 (filter (fun o => Nat.eqb (target O o) d) h)) d.
+Proof. intros O v. exact (directories_independent O v). Qed.
+Print Assumptions c18_directories_independent.
+
+(* repaired: the automatic tag can always be formed and is never a key of the table *)
+Theorem c18_auto_tag_free : forall (O : Type) (t : table O),
+  exists z, auto_tag O TagRepaired t = Some (TInt z) /\ tget O t (TInt z) = None.
+Proof. exact auto_tag_repaired_free. Qed.
+Print Assumptions c18_auto_tag_free.
+
+(* repaired: savedir without a tag never fails and loses nothing: every (tag, object) the directory
+   held before the call it still holds afterwards, and the new object is there under a tag that was free *)
+Theorem c18_savedir_auto_loses_nothing : forall (O : Type) (s : dirs O) d x,
+  exists s' k, savedir O TagRepaired s d None x = (s', DSaved k) /\
+               tget O (tab_of O s d) k = None /\
+               tget O (tab_of O s' d) k = Some x /\
+               forall k' y, tget O (tab_of O s d) k' = Some y -> tget O (tab_of O s' d) k' = Some y.
+Proof. exact savedir_auto_repaired. Qed.
+Print Assumptions c18_savedir_auto_loses_nothing.
+
+(* pinned: the automatic tag continues from the last key, not the largest: an earlier object is
+   overwritten (repaired: tag 4, nothing lost) *)
+Theorem c18_auto_tag_overwrites_refuted : exists h : list (dop nat),
+  snd (drun nat TagPinned (no_dirs nat) h) = [DSaved (TInt 1); DSaved (TInt 3); DSaved (TInt 2); DSaved (TInt 3);
+                                              DLoaded [(TInt 1, 10); (TInt 3, 13); (TInt 2, 12)]] /\
+  snd (drun nat TagRepaired (no_dirs nat) h) = [DSaved (TInt 1); DSaved (TInt 3); DSaved (TInt 2); DSaved (TInt 4);
+                                                DLoaded [(TInt 1, 10); (TInt 3, 11); (TInt 2, 12); (TInt 4, 13)]].
+Proof. eexists. exact auto_tag_overwrites. Qed.
+Print Assumptions c18_auto_tag_overwrites_refuted.
+
+(* pinned: after a string tag no automatic tag can be formed (repaired: tag 1) *)
+Theorem c18_auto_tag_after_string_refuted : exists h : list (dop nat),
+  snd (drun nat TagPinned (no_dirs nat) h) = [DSaved (TStr 0); DErr; DLoaded [(TStr 0, 10)]] /\
+  snd (drun nat TagRepaired (no_dirs nat) h) = [DSaved (TStr 0); DSaved (TInt 1); DLoaded [(TStr 0, 10); (TInt 1, 11)]].
+Proof. eexists. exact auto_tag_after_string_fails. Qed.
+Print Assumptions c18_auto_tag_after_string_refuted.
+
 (* non-vacuity *)
 Example c18_example :
   export_import Z drepaired Txt (Some [10; 20; 30]%Z) (A2 2 [[1; 2]; [3; 4]; [5; 6]]%Z)
